@@ -123,9 +123,19 @@ def generate(rng, tier, index):
     return {'cases': list(range(lo, min(CASES, lo + PER_PLAN))), 'seed': 1}
 
 
+def _real_requests_exceptions():
+    import requests
+    return requests.exceptions
+
+
 class Slugs(object):
-    """`requests` stand-in: behaviour is encoded in the host name."""
+    """`requests` stand-in: behaviour is encoded in the host name. Faults
+    are raised with the exception classes the real library uses
+    (requests.exceptions.ConnectionError / ReadTimeout / JSONDecodeError),
+    and `exceptions` is the real namespace, so that code catching
+    RequestException sees what it would see in production."""
     calls = []
+    exceptions = _real_requests_exceptions()
 
     class R(object):
         def __init__(self, code, body):
@@ -134,6 +144,9 @@ class Slugs(object):
 
         def json(self):
             if self.body is None:
+                exc = getattr(Slugs.exceptions, 'JSONDecodeError', None)
+                if exc is not None:
+                    raise exc('Expecting value', 'not json', 0)
                 raise ValueError('No JSON object could be decoded')
             return self.body
 
@@ -146,7 +159,11 @@ class Slugs(object):
         is_groups = url.endswith('/groups')
         Slugs.calls.append((host, is_groups))
         if host == 'down_users' or (host == 'down_groups' and is_groups):
-            raise ConnectionError('simulated: unreachable')
+            n = len(Slugs.calls)
+            if n % 2:
+                raise Slugs.exceptions.ConnectionError(
+                    'simulated: unreachable')
+            raise Slugs.exceptions.ReadTimeout('simulated: read timed out')
         if host == 'user404' and not is_groups:
             return self.R(404, {})
         if host == 'groups404' and is_groups:
